@@ -174,15 +174,26 @@ class Machine:
         self.shadow_path = os.path.join(self.user, arch + ".yml")
 
     @staticmethod
-    def write(path, text):
+    def write(path, text, keep_stat=False):
         """Atomic (temp file + rename), as editors and package managers write: a process that is reading
         the file at that moment keeps reading the old content, nobody ever sees a torn file.  (A model file
         torn by an in-place rewrite is garbage input, not a cache matter.)"""
         os.makedirs(os.path.dirname(path), exist_ok=True)
         tmp = path + ".harness-edit"
+        st = None
+        if keep_stat and os.path.exists(path):
+            # an edit that a stat()-based validity test cannot see: same byte length, time stamps restored
+            # (cp -p, rsync -t, tar x, touch -r, or a file system with coarse time stamps).  Only content
+            # tells the versions apart.  Returns False when the new text has another length (ordinary edit).
+            st = fsmod.real("stat")(path)
+            if len(text.encode()) != st.st_size:
+                st = None
         with fsmod.real("open")(tmp, "w") as f:
             f.write(text)
         fsmod.real("replace")(tmp, path)
+        if st is not None:
+            os.utime(path, ns=(st.st_atime_ns, st.st_mtime_ns))
+        return st is not None
 
     @staticmethod
     def read(path):
@@ -374,7 +385,7 @@ def gen_ops(rng, isa, nk, tier, faults=True):
                 procs_.append(p)
             ops.append({"op": "run_group", "procs": procs_})
         elif r < 0.53:
-            ops.append({"op": "edit_model", "kind": rng.choice(["semantic", "semantic", "header", "comment"])})
+            ops.append({"op": "edit_model", "kind": rng.choice(["semantic", "semantic", "header", "comment", "samestat"])})
         elif r < 0.55:
             ops.append({"op": "edit_isa"})
         elif r < 0.67:
@@ -393,7 +404,7 @@ def gen_ops(rng, isa, nk, tier, faults=True):
             an = []
             for i in range(k):
                 an.append({"kernel": rng.randrange(nk), "options": rng.choice(OPTION_SETS),
-                           "edit_before": (rng.choice(["semantic", "header", "comment", None]) if i > 0 else None)})
+                           "edit_before": (rng.choice(["semantic", "header", "comment", "samestat", None]) if i > 0 else None)})
             ops.append({"op": "long_lived", "analyses": an})
     # the bounded-liveness tail: after the last fault a single fault-free run must be right
     ops.append({"op": "run_group", "procs": [{"kernel": rng.randrange(nk), "options": []}], "tail": True})
@@ -443,6 +454,13 @@ def template_histories(rng, nk):
         "long_lived_home_cache": [ro, run(), {"op": "long_lived", "analyses": [
             {"kernel": rng.randrange(nk), "options": []}, {"kernel": rng.randrange(nk), "options": [], "edit_before": "semantic"},
             {"kernel": rng.randrange(nk), "options": []}]}, run()],
+        # an edit no stat() can see (same length, time stamps restored): only the content hash tells
+        "long_lived_across_samestat_edits": [{"op": "edit_model", "kind": "semantic"}, {"op": "long_lived", "analyses": [
+            {"kernel": rng.randrange(nk), "options": []}, {"kernel": rng.randrange(nk), "options": [], "edit_before": "samestat"},
+            {"kernel": rng.randrange(nk), "options": [], "edit_before": "samestat"},
+            {"kernel": rng.randrange(nk), "options": [], "edit_before": "semantic"}]}, run()],
+        "samestat_edit_between_runs": [{"op": "edit_model", "kind": "semantic"}, run(), {"op": "edit_model", "kind": "samestat"}, run(), run(),
+                                       ro, {"op": "edit_model", "kind": "samestat"}, run(), run()],
         "crash_then_machine_crash": [run(2, fault={"kind": "crash", "at": rng.choice([1, 2, 3, 5, 8])}), {"op": "machine_crash"}, run(), run()],
     }
     return T
@@ -542,7 +560,8 @@ class Episode:
                         break
                     text = p["analyses"][nxt][2]
                     if text is not None:
-                        self.m.write(self.m.model_path, text)
+                        if self.m.write(self.m.model_path, text[0], keep_stat=text[1]):
+                            self.agg.probes["edit_with_same_size_and_mtime_seen_by_long_lived_process"] += 1
                         sim.ev("model-edited", nxt)
                     gates[nxt] = True
             sim.wait_until(lambda: all(t.done for t in tasks.values()), "wait-procs")
@@ -624,7 +643,7 @@ class Episode:
                 self.agg.probes["run_without_any_cache_access(read-only everything)"] += 1
 
     def bump_edit(self, kind):
-        if kind == "semantic":
+        if kind in ("semantic", "samestat"):
             self.sem_k += 1
         elif kind == "header":
             self.semh_k += 1
@@ -633,8 +652,10 @@ class Episode:
 
     def apply_edit(self, kind):
         self.bump_edit(kind)
-        self.m.write(self.m.model_path, self.model_text())
+        kept = self.m.write(self.m.model_path, self.model_text(), keep_stat=(kind == "samestat"))
         self.agg.stats["op_edit_" + kind] += 1
+        if kept:
+            self.agg.probes["edit_with_same_size_and_mtime"] += 1
 
     # ---- judging one finished group
     def judge(self, records, expectations, tasks, plan, tail=False):
@@ -729,7 +750,7 @@ class Episode:
                         if a.get("edit_before"):
                             self.bump_edit(a["edit_before"])
                             self.agg.stats["op_edit_" + a["edit_before"]] += 1
-                            text = self.model_text()
+                            text = (self.model_text(), a["edit_before"] == "samestat")
                         eff = self.m.read(self.m.shadow_path) if shadowed else self.model_text()
                         kname = KERNELS[self.isa][a["kernel"]][0]
                         exp = (reference(self.arch, self.isa, eff, self.isa_text, kname, a["options"]), kname)
